@@ -58,9 +58,11 @@ def label_list(draw, n_in: int, n_g: int, styles=('plain', 'digits', 'mixed')):
     return style, labels
 
 
-def _arity_for(draw, typ: str, max_arity: int) -> int:
+def _arity_for(draw, typ: str, max_arity: int, const_operands=(0,), avail: int = 1) -> int:
     if typ in CONST:
-        return 0
+        if avail == 0 or len(const_operands) == 1 and const_operands[0] == 0:
+            return 0
+        return draw(st.sampled_from(list(const_operands)))
     if typ in UNARY:
         return 1
     if typ in FIXED:
@@ -87,6 +89,7 @@ def netlists(
     outputs_from: str = 'any',  # 'any' | 'gates'
     recency_bias: bool = True,
     dup_rate: int = 0,  # out of 8: chance that a gate literally duplicates an earlier gate
+    const_operands=(0,),  # admissible operand counts of ALWAYS_TRUE / ALWAYS_FALSE gates
 ):
     """Well-formed DAG netlist; gates listed inputs first then topologically."""
     types = list(types) if types is not None else ALL_TYPES
@@ -112,7 +115,7 @@ def netlists(
                     ops = ops[1:] + ops[:1]
                 gates.append([labels[k], src[1], ops])
                 continue
-        ar = _arity_for(draw, typ, max_arity)
+        ar = _arity_for(draw, typ, max_arity, const_operands, avail)
         ops = []
         for _ in range(ar):
             if recency_bias and avail > 4 and draw(st.booleans()):
@@ -168,6 +171,8 @@ def classify(nl: dict) -> set[str]:
             cls.add('dup_operand')
         if t in CONST:
             cls.add('constant')
+            if ops:
+                cls.add('constant_with_operands')
         if t in ('LIFF', 'RIFF', 'LNOT', 'RNOT'):
             cls.add('LR_gate')
         if t in ('GT', 'LT', 'GEQ', 'LEQ'):
